@@ -144,4 +144,27 @@ def run(P, rep, tier):
                    '%s(%s) is %sdominated by pad_input_pictures(.., %s)' % (name, ', '.join(args)[:60], '' if ok else 'NOT ', pic))
     # the padding really writes the borders from the visible area: it is called with the sequence settings and the picture
     rep.ob('C21.PADFIRST', 'pad-call-shape', len(pad['e'][2]) == 2, pa.loc(pad), 'pad_input_pictures(scs, picture)')
-    rep.floor('C21.PADFIRST', 5)
+    # the overlay picture is a second copy of caller data (made in resource coordination from the alt-ref input, before either has
+    # been through picture analysis); its borders are regenerated by perform_simple_picture_analysis_for_overlay
+    ov = P.fn('perform_simple_picture_analysis_for_overlay')
+    opads = [ev for ev, n in ov.calls('pad_picture_to_multiple_of_min_blk_size_dimensions')]
+    if not opads:
+        rep.ob('C21.PADFIRST', 'overlay/pad-call-present', False, ov.loc(),
+               'the overlay path no longer regenerates the borders of the copied picture (no call to pad_picture_to_multiple_of_min_blk_size_dimensions): '
+               'whatever the copy brought into the padding area is coded as source samples of the overlay frame')
+    else:
+        opad = opads[0]
+        opic = pstr(strip(opad['e'][2][1]))
+        opcs = ov.params[0][0] if ov.params else None
+        m = 0
+        for ev, name in ov.calls():
+            if ev is opad:
+                continue
+            args = [pstr(strip(a)) for a in ev['e'][2]]
+            roots = {root_of(strip(a))[1] for a in ev['e'][2] if root_of(strip(a)) is not None}
+            if opic in args or (opcs and opcs in args) or opic in roots:
+                m += 1
+                ok = ov.ev_dominates(opad, ev)
+                rep.ob('C21.PADFIRST', 'overlay/consumer:%s#%d' % (name or 'indirect', m), ok, ov.loc(ev),
+                       '%s(%s) is %sdominated by the border regeneration of %s' % (name, ', '.join(args)[:60], '' if ok else 'NOT ', opic))
+    rep.floor('C21.PADFIRST', 8)
